@@ -20,8 +20,8 @@ def walk(t):
         yield from walk(c)
 
 
-def real_build(h, src: bytes, file: str, timeout=120):
-    return h.call(op="build", hex=src.hex(), file=file, timeout=timeout)
+def real_build(h, src: bytes, file: str, timeout=120, graph=""):
+    return h.call(op="build", hex=src.hex(), file=file, timeout=timeout, graph=graph)
 
 
 def model_build(d, src: bytes, file: str, tree):
